@@ -210,6 +210,8 @@ class Tr:
         if ty in LISTS:
             if isinstance(s, ast.Slice):
                 if s.lower is None and s.upper is None and s.step is not None and same_expr(s.step, "-1"):
+                    if ty == "LF":  # a view of an array the body may store into
+                        fail(self.where(e), f"reversed view of a float buffer: {ast.unparse(e)}")
                     return (f"(rev {base.id})", ty)
                 fail(self.where(e), f"slice of a 1-D array other than [::-1]: {ast.unparse(e)}")
             elt = LISTS[ty]
@@ -401,6 +403,9 @@ class Tr:
                 t, ty = self.expr(s.value)
                 if ty in ("AF", "AZ", "DZ", "DQ", "MZ"):
                     fail(self.where(s), f"an array / table of type {ty} is bound to a local name: {ast.unparse(s)}")
+                if ty in LISTS and isinstance(s.value, ast.Name):
+                    # (a later store through one name would be seen through the other; the translation copies)
+                    fail(self.where(s), f"a second name for the array {s.value.id}: {ast.unparse(s)}")
                 self.bind(s, tgt.id, ty)
                 return f"let {tgt.id} := {t} in\n" + self.block(rest, tail, s)
             cell = self.is_cell(tgt)
